@@ -296,6 +296,15 @@ def file_check(case):
                 raw[ch, sl] = 0
             else:
                 raw[ch, sl] += 150e-6 * rng.standard_normal(sl.stop - sl.start)
+    # faults present in a slim majority of batches that INCLUDES the last one (a channel that dies part-way through the recording)
+    plan_end = {60: (1, nb // 2 + 1), 330: (2, nb // 2 + 1)} if variant in (0, 1, 2) else {}
+    for ch, (lab, nbat) in plan_end.items():
+        for bi in range(nb - nbat, nb):
+            sl = slice(starts[bi], starts[bi] + int(bd * FS))
+            if lab == 1:
+                raw[ch, sl] = 0
+            else:
+                raw[ch, sl] += 150e-6 * rng.standard_normal(sl.stop - sl.start)
     for ch, parts in mixed.items():
         bi = 0
         for lab, nbat in parts:
@@ -341,7 +350,7 @@ def file_check(case):
         # and the plan: majority faults are reported, minority ones are not
         if got.shape == (nc,) and clear[250] and got[250] != 0 and variant != 4:
             v.append(("detect-file:plan", "channel 250 clean in 3, dead in 2 and noisy in 2 of 7 batches is labelled %r (mode is 0)" % got[250]))
-        for ch, (lab, nbat) in plan.items():
+        for ch, (lab, nbat) in list(plan.items()) + list(plan_end.items()):
             want = lab if nbat > nb / 2 else 0
             if got.shape == (nc,) and got[ch] != want and clear[ch]:
                 v.append(("detect-file:plan", "channel %d faulty (label %d) in %d of %d batches is labelled %r" % (ch, lab, nbat, nb, got[ch])))
